@@ -11,8 +11,10 @@ CLAIMED = {
             "(independent encoder), serves it through one of five storage back-ends with one "
             "records_per_chunk and compares every loaded sample word for word with the truth "
             "model (full load, blocks kept across later reads, a second same-named product in the "
-            "same interpreter, reads through an index cache, one load under an injected EIO; worlds "
-            "from 1x1 to 140 MB files, varied descriptors and line prefixes). Sampling, "
+            "same interpreter, reads through an index cache, one load under an injected read error "
+            "(EIO or a transient kind); worlds from 1x1 to 140 MB files, varied descriptors, line "
+            "prefixes and record numbering; one run in five with the package compiled as under "
+            "python -O / -OO). Sampling, "
             "not proof; the simulator contributes back-end/request-size variation "
             "and the recorded request stream, no interleavings.",
             "seeded deterministic simulation (storage back-ends, request sizes, EIO during loads); "
@@ -42,13 +44,16 @@ CLAIMED = {
             "Fault injection at the cache write: planted prefixes (thorough: every byte length of "
             "the index document), simulated kills and ENOSPC at byte k of the n-th file or just "
             "before the n-th disk-mutating operation (mkdir/open/write chunk/close/rename/unlink) "
-            "of the option or CLI writer, paused writers and two or three interleaved writers plus "
+            "of the option or CLI writer (offsets resolved against that writer's own document), "
+            "paused writers, writers that go on writing while a default open is under way "
+            "(virtual time passes with scheduler steps) and two or three interleaved writers plus "
             "readers under a seeded scheduler; afterwards default opens must equal the uncached "
             "reference and create_cache must repair.",
             "deterministic simulation with fault injection (crash points x schedules), seeded "
             "search + exhaustive prefix enumeration"),
     "C10": ("exploration", "3.4",
-            "Seeded random histories of open/cli/delete/late-load/caller-scribble/restart against "
+            "Seeded random histories of open/cli/delete (index files or whole cache directories)/"
+            "late-load/caller-scribble/forget/restart against "
             "a cache-state model; invariants after every step (tree == reference(rpc), product "
             "directory, user cache directory, writes anywhere else, option dictionaries).",
             "seeded deterministic simulation of operation histories against a reference model"),
@@ -58,14 +63,16 @@ CLAIMED = {
             "seeded deterministic simulation on recorded storage; history oracle"),
     "C18": ("fault_enumeration", "3.6",
             "Storage faults (truncation at every record boundary +-1 and sampled interior points; "
-            "every single missing file; an EIO on the n-th read request) crossed with "
+            "every single missing file; an EIO / connection reset / timeout / EINTR on the n-th "
+            "read request) crossed with "
             "records_per_chunk; the open must raise or return a fully loadable identical tree, "
             "within an event budget proportional to the undamaged open (plus a wall-clock "
             "watchdog for loops that touch no seam).",
             "deterministic simulation with storage fault injection, enumerated fault points"),
     "C19": ("exploration", "3.7",
             "Baton-passing scheduler over 2-3 real loader threads (plus any thread the code under "
-            "test starts itself) on one tree / pickled copies; seeded interleavings at every file "
+            "test starts itself) on one tree / pickled copies / a second open of the product; seeded "
+            "interleavings at every file "
             "operation and every contended Lock/RLock/Condition wait (uniform random, PCT, "
             "line-level pre-emption); results must equal sequential loads, no deadlock or lost "
             "wake-up, within a step budget proportional to the sequential work.",
@@ -140,7 +147,9 @@ def write():
             "kind_free_text": "deterministic simulation with fault injection: seeded worlds "
                               "(synthesised CEOS products on simulated/real storage), byte-gated cache "
                               "writes, baton-passing thread scheduler, recorded I/O histories, "
-                              "truth/differential oracles, ddmin replay files",
+                              "truth/differential oracles, ddmin replay files; the environment of the "
+                              "simulated process is part of each seeded world (python -O/-OO for "
+                              "the package, locale encoding, kind of read error)",
         }],
         "checks": checks,
         "not_applicable": sorted(na, key=lambda x: x["property_id"]),
